@@ -141,6 +141,25 @@ theorem scope_safe_partial {L : Type} [DecidableEq L] (p : List (Prim L)) (hns :
 example : ∀ n, Prim.beginScope n ∉ ([.label "b", .goto "e", .brk (some "e"), .goto "b", .label "e"] : List (Prim String)) := by
   intro n; simp
 
+/-! ### Path-level safety ("every opened scope is closed on every path") by a checked certificate
+
+  `pathSafe p fuel` searches a finite set of heads and CHECKS that it contains the start head, is closed under every
+  step of the look-up model and contains no failing step.  The check is the proof: -/
+
+/-- If the path checker accepts a program then on EVERY execution (any branch outcomes, any fork child, success or
+    failure of every match) no label look-up fails and no head meets `BeginScope(n)` while it still holds `n`
+    (the `ColangRuntimeError` "Scope … already opened in this head" of the when/else defect). -/
+theorem path_checker_sound {L : Type} [DecidableEq L] (p : List (Prim L)) (fuel : Nat) (hs : pathSafe p fuel = true)
+    (h : Head L) (hr : Reach p h) (c : Bool) :
+    step p h c ≠ .keyError ∧ step p h c ≠ .invalidLabel ∧ step p h c ≠ .scopeError :=
+  (closedUnder_sound p _ hs h hr).2 c
+
+/-- the unrepaired `when … else` in a loop is rejected by the path checker, the repaired expansion (model of /repo
+    3c50707, with a flow-starting case, nested in a loop) is accepted (finite facts, by evaluation) -/
+example : pathSafe whenElseInLoop 500 = false ∧
+    pathSafe (expandFlow [.whileS [.whenS [[[⟨.ev, false⟩, ⟨.flow, true⟩]], [[⟨.action, false⟩]]] [[.brk], [.send]] [.cont] true]]) 2000 = true := by
+  decide
+
 /-! ## (A) Colang 1.0: the verified checker -/
 
 /-- The executable checker decides "every relative jump / branch offset lands inside the flow, the fields `slide`
